@@ -20,7 +20,7 @@ EXPECTED = ['USER', 'PASS', 'SIZE', 'TYPE', 'PASV', 'RETR']
 EXPECTED_LIST = ['USER', 'PASS', 'TYPE', 'PASV', 'MLSD', 'LIST']
 
 
-def run_session(url, script, listing=False, login=None, client_setup=None, rate_limited=False):
+def run_session(url, script, listing=False, login=None, client_setup=None, rate_limited=False, duration_timeout=None):
     '''Returns dict(outcome, control peer, events).'''
     from wpull.network.pool import ConnectionPool
     from wpull.protocol.ftp.client import Client
@@ -60,7 +60,11 @@ def run_session(url, script, listing=False, login=None, client_setup=None, rate_
                         resp = await session.download_listing(buf)
                     else:
                         await session.start(request)
-                        resp = await session.download(buf)
+                        if duration_timeout:
+                            # --session-timeout: a limit on the whole transfer (wall clock)
+                            resp = await session.download(buf, duration_timeout=duration_timeout)
+                        else:
+                            resp = await session.download(buf)
                     control.events.append('download-returned')
                     result['reply_code'] = resp.reply.code
             task = asyncio.ensure_future(go())
@@ -68,6 +72,12 @@ def run_session(url, script, listing=False, login=None, client_setup=None, rate_
             while not task.done() and idle < 3000:
                 await asyncio.sleep(0)
                 idle += 1
+            if not task.done() and duration_timeout:
+                # the peer has gone silent: the client's own time limit has to end the transfer
+                try:
+                    await asyncio.wait_for(asyncio.shield(task), duration_timeout * 6 + 1)
+                except BaseException:
+                    pass
             if not task.done():
                 task.cancel()
                 try:
@@ -362,7 +372,12 @@ def check_completion(case, part):
         script.segment = lambda b: [b[i:i + 1] for i in range(len(b))]
     elif seg == 'halves':
         script.segment = lambda b: [b[:len(b) // 2], b[len(b) // 2:]]
-    res = run_session('ftp://f.test/dir/file.bin', script, rate_limited=case.get('rate_limited', False))
+    if case['ending'] in ('eof_first', 'reply_first'):
+        case['duration_timeout'] = None        # (a wall-clock limit on a transfer that completes would make the verdict depend on load)
+    res = run_session('ftp://f.test/dir/file.bin', script, rate_limited=case.get('rate_limited', False),
+                      duration_timeout=case.get('duration_timeout'))
+    if case.get('duration_timeout'):
+        part.count('transfers_with_a_time_limit')
     part.evaluations += 1
     part.count('transfer_endings_' + case['ending'])
     if case.get('rate_limited'):
@@ -427,7 +442,7 @@ def worker(job):
     for n in range(job['n_completion']):
         # (the reply after the data connection closed: only 226 confirms the transfer; other replies - also positive ones
         # such as 225 'no transfer in progress', 221 'goodbye', 200, 211 - do not)
-        case = {'rate_limited': rng.random() < 0.3,
+        case = {'rate_limited': rng.random() < 0.3, 'duration_timeout': rng.choice([None, None, 0.1]),
                 'ending': rng.choice(['eof_first', 'reply_first', 'missing_final', 'error_final', 'error_final', 'no_eof', 'partial_final']),
                 'error_reply': rng.choice(['451 aborted', '426 Connection closed; transfer aborted', '550 failed', '225 no transfer in progress',
                                            '221 Goodbye', '200 ok', '211 status', '125 starting', '150 again', '332 need account',
